@@ -8,6 +8,7 @@
 // The model is a plain list of (point, value) entries; every expected answer is a linear scan that
 // uses the named members (x, y, z, w) and the built-in comparison operators only.
 #pragma once
+#include <sanitizer/lsan_interface.h>
 #include <stdint.h>
 #include <string.h>
 
@@ -257,6 +258,24 @@ struct Checker {
       fail("~KDTree:crash-on-empty-tree", [&] { return vf::fmt("destroying the tree while it is empty killed the process (wait status 0x%x); expected: safe", Holder<Tree>::empty_dtor_status()); });
   }
 
+  // LeakSanitizer inside the case (so that a leak is attributed to the case and reproduces in a replay); costs a
+  // stop-the-world scan, so it is used where a leak would have no other symptom
+  // overwrites the dead part of the stack: pointers left behind by frames that have returned (or were unwound)
+  // would otherwise keep leaked blocks "reachable" for the scan
+  __attribute__((noinline)) static void wipe_dead_stack() {
+    volatile char pad[96 * 1024];
+    for (size_t i = 0; i < sizeof(pad); i += 8) pad[i] = 0;
+    for (size_t i = 0; i < sizeof(pad); i++) pad[i] = 0;
+  }
+  bool leak_seen = false;  // the section then leaves through r.finish_now(): LeakSanitizer's own exit check would kill the shard
+  void leak_check() {
+    if (leak_seen) return;  // later scans would report the same blocks again
+    wipe_dead_stack();
+    if (__lsan_do_recoverable_leak_check()) leak_seen = true;
+    if (leak_seen)
+      fail("LeakSanitizer:leak", [&] { return std::string("LeakSanitizer found memory that is no longer reachable after the tree of this case was destroyed (allocation stacks are in the shard's stderr)"); });
+  }
+
   // ---- white-box structure check after a mutation ----------------------------------------------
   struct Anc { const Node* n; bool before; };
   void scan_node(const Node* n, const Node* parent, int depth, std::vector<Anc>& anc, std::vector<E>& content, size_t limit, std::string& problem, std::string& order_problem) const {
@@ -402,16 +421,15 @@ struct Checker {
       fail(ex ? "exists(box):true-for-empty-box" : "exists(box):false-for-occupied-box", [&] { return "exists" + boxstr() + vf::fmt(" == %s, linear scan finds %zu entries (model = ", ex ? "true" : "false", exp.size()) + m.show() + ")"; });
   }
   // every observer against the model; `reverse` walks probes and boxes from the far end
-  void sweep(Tree& t, const M& m, bool reverse, Style style) {
+  void sweep(Tree& t, const M& m, bool reverse, Style style, size_t box_limit = 0) {
     calls++;
     if (t.size() != m.items.size()) fail("size", [&] { return vf::fmt("size() == %zu, model holds %zu entries", t.size(), m.items.size()); });
     {
       M copy = m;
       traverse(t, copy, 0, style);
     }
-    std::string oc = outcome([&] { (void)t.depth(); });  // depth() is outside the statement: executed, not compared
-    if (oc != "ok") fail("depth:throws", [&] { return "depth() threw " + oc; });
-    size_t np = probes.size(), nb = boxes.size();
+    (void)outcome([&] { (void)t.depth(); });  // depth() is outside the statement: executed (memory safety), never compared
+    size_t np = probes.size(), nb = (box_limit && box_limit < boxes.size()) ? box_limit : boxes.size();
     for (size_t i = 0; i < np; i++) check_point(t, m, probes[reverse ? np - 1 - i : i]);
     for (size_t i = 0; i < nb; i++) {
       auto& b = boxes[reverse ? nb - 1 - i : i];
